@@ -615,11 +615,31 @@ package xpath
 //@   props C15
 //@   captures a != nil && node != nil
 //@ func (*childQuery).Select$1
-//@   props C15
+//@   props C15 C01 C12
+//@   theory nav for C01 C12
+//@   uses tree-child tree-parent tree-depth tree-kinds
 //@   captures c != nil && node != nil
+//@   modifies heap(navpos), heap(C@*)
+//@   let P0 = ite(first, pos(node), parent(pos(node)))
+//@   let I0 = ite(first, 0, idx(pos(node)))
+//@   assume[walker-state] !first ==> kind(pos(node)) != 2 && !isroot(pos(node))     // node and first are private to this closure; re-established below
+//@   ensures[walker-state@C01] !first ==> kind(pos(node)) != 2 && !isroot(pos(node))
+//@   ensures[next-matching-child@C01,C12] result != nil ==> result == node && !first && parent(pos(node)) == P0 && I0 < idx(pos(node)) && idx(pos(node)) <= nch(P0) && predv(ref(c), pos(node)) && forall(j, Int, I0 < j && j < idx(pos(node)) ==> !predv(ref(c), child(P0, j)))
+//@   ensures[no-more-children@C01] result == nil ==> kind(P0) == 2 || forall(j, Int, I0 < j && j <= nch(P0) ==> !predv(ref(c), child(P0, j)))
+//@   loop 0 invariant[scan@C01,C12] (first ==> pos(node) == P0 && I0 == 0) && (!first ==> kind(pos(node)) != 2 && !isroot(pos(node)) && parent(pos(node)) == P0 && I0 <= idx(pos(node)) && idx(pos(node)) <= nch(P0)) && forall(j, Int, I0 < j && j <= ite(first, 0, idx(pos(node))) ==> !predv(ref(c), child(P0, j))) && (old(first) || !first)
 //@ func (*cachedChildQuery).Select$1
-//@   props C15
+//@   props C15 C01 C12
+//@   theory nav for C01 C12
+//@   uses tree-child tree-parent tree-depth tree-kinds
 //@   captures c != nil && node != nil
+//@   modifies heap(navpos), heap(C@*)
+//@   let P0 = ite(first, pos(node), parent(pos(node)))
+//@   let I0 = ite(first, 0, idx(pos(node)))
+//@   assume[walker-state] !first ==> kind(pos(node)) != 2 && !isroot(pos(node))     // node and first are private to this closure; re-established below
+//@   ensures[walker-state@C01] !first ==> kind(pos(node)) != 2 && !isroot(pos(node))
+//@   ensures[next-matching-child@C01,C12] result != nil ==> result == node && !first && parent(pos(node)) == P0 && I0 < idx(pos(node)) && idx(pos(node)) <= nch(P0) && predv(ref(c), pos(node)) && forall(j, Int, I0 < j && j < idx(pos(node)) ==> !predv(ref(c), child(P0, j)))
+//@   ensures[no-more-children@C01] result == nil ==> kind(P0) == 2 || forall(j, Int, I0 < j && j <= nch(P0) ==> !predv(ref(c), child(P0, j)))
+//@   loop 0 invariant[scan@C01,C12] (first ==> pos(node) == P0 && I0 == 0) && (!first ==> kind(pos(node)) != 2 && !isroot(pos(node)) && parent(pos(node)) == P0 && I0 <= idx(pos(node)) && idx(pos(node)) <= nch(P0)) && forall(j, Int, I0 < j && j <= ite(first, 0, idx(pos(node))) ==> !predv(ref(c), child(P0, j))) && (old(first) || !first)
 //@ func (*descendantQuery).Select$1
 //@   props C15 C12 C01
 //@   mode int
@@ -698,6 +718,7 @@ package xpath
 //@   requires n != nil
 //@   modifies nothing
 //@   keeps-cursor
+//@   ensures-assumed[deterministic] result == predv(ref(self), pos(n))     // the node test of a query object is a function of the position (proved for the tests axisPredicate builds: C14)
 
 //@ field *.iterator() result
 //@   keeps-cursor
@@ -2200,3 +2221,13 @@ package xpath
 //@ define walkerOK(level, p) = 0 <= level && level <= depth(p) && (level > 0 ==> kind(p) != 2 && !isroot(p))
 //@ instance sibOrder(q, i) = 1 <= i && i < nch(q) ==> pre(child(q, i + 1)) == pre(child(q, i)) + size(child(q, i))
 //@ instance ancnStep(p, n) = (n == 0 ==> ancn(p, n) == p) && (n > 0 ==> ancn(p, n) == ancn(parent(p), n - 1))
+
+// ---------------------------------------------------------------------------
+// C12: the public iterator. MoveNext reports the next node of the query's stream and leaves
+// Current() positioned on it; it reports false exactly when the stream is exhausted.
+//@ func (*NodeIterator).MoveNext
+//@   props C15 C12
+//@   theory stream for C12
+//@   ensures[reports-next@C12] result == (old(k(t.query)) < slen(ref(t.query), epoch(t.query)))
+//@   ensures[positioned@C12] result ==> t.node != nil && pos(t.node) == spos(ref(t.query), epoch(t.query), old(k(t.query))) && k(t.query) == old(k(t.query)) + 1
+//@   ensures[exhausted@C12] !result ==> k(t.query) == slen(ref(t.query), epoch(t.query)) && t.node == old(t.node) && pos(t.node) == old(pos(t.node))
